@@ -60,7 +60,7 @@ class Arg:
 class Kernel:
     def __init__(self, name, args, ret, body, *, decls="", consts=None, mode="bv", W=None, views=("gcc",),
                  pre=None, claims=None, tags=None, unwind=None, ndebug=False, ref_body=None, desc="",
-                 max_paths=None, vectors=None, allow_ub=False, timeout=None, alt_modes=(), splits=None, prune_timeout_ms=None, guided_seeds=None):
+                 max_paths=None, vectors=None, allow_ub=False, timeout=None, alt_modes=(), splits=None, prune_timeout_ms=None, guided_seeds=None, terminates=False):
         self.name = name
         self.args = [a if isinstance(a, Arg) else Arg(*a) for a in args]
         self.ret = ret
@@ -86,6 +86,7 @@ class Kernel:
         self.prune_timeout_ms = prune_timeout_ms
         self.guided_seeds = guided_seeds
         self.guided_random = None
+        self.terminates = terminates  # termination claim: a feasible path beyond the unwinding bound is replayed; no return within 5 s = violation
 
     def params_cpp(self):
         ps = []
@@ -199,6 +200,7 @@ int main() {
         pid_t pid = fork();
         if (pid == 0) {
             close(pfd[0]); dup2(pfd[1], 2); close(pfd[1]);
+            alarm(5);  // a call that does not return within 5 s is reported as SIG 14 (non-termination witness)
             try { fn(av + 1); }
             catch (std::exception const& e) { std::printf("THROW %s %s\n", typeid(e).name(), e.what()); }
             catch (...) { std::printf("THROW ?\n"); }
